@@ -105,7 +105,7 @@ var c20Fragments = [][]string{
 	{"SELECT", "'ends;'", ";"},
 	{"SELECT", "'a;| b'", "FROM", "t", ";"},
 	{"DELETE", "FROM", "t", "WHERE", "c", "=", "';;'", ";"},
-	{"SELECT", "'C:\\\\tmp\\\\'", "FROM", "t", ";"},        // literal ending in an escaped backslash
+	{"SELECT", "'C:\\\\tmp\\\\'", "FROM", "t", ";"},              // literal ending in an escaped backslash
 	{"SELECT", "'it\\'s;'", ",", "\"q\\\";\"", "FROM", "t", ";"}, // escaped quotes followed by a semicolon inside the literal
 }
 
